@@ -79,4 +79,15 @@ var properties = map[string]*propDef{
 		RequiredProbes: []string{"rollover", "out_of_order_domain", "read_cuts_between_samples", "variable_type", "reopen"},
 		Units:          []unit{cesiumUnit("cesium-seq", "c01")},
 	},
+	"C04": {
+		Level: "exploration",
+		Rule: "cases are rapid-generated scripts of writes, time-range deletes (data-only, index-only, whole group; unaligned bounds), GC passes at drawn thresholds, reopen and reads; after every delete and around every GC pass every channel is read in full and compared with the reference map; non-trivial = at least one delete that removed samples and >=2 committed domains; distinct = hash of (script shape, samples removed per delete, GC effect, file-size cap)",
+		Real:  cesiumReal, Stub: cesiumStub,
+		Assumptions: []string{
+			"reference model: ts->bytes map minus deleted keys; index-channel delete: must be refused when a non-named dependent channel has a sample in the range, must succeed when no dependent has a sample in any writer time slot the range touches, either otherwise",
+			"GC is invoked in-package through the DB's own garbageCollect pass (no hook)",
+		},
+		RequiredProbes: []string{"delete_removed_samples", "gc_reclaimed_bytes", "delete_start_between_samples", "delete_end_between_samples", "delete_start_on_sample", "delete_end_on_sample", "index_delete_refused", "reopen"},
+		Units:          []unit{cesiumUnit("cesium-seq", "c04")},
+	},
 }
